@@ -16,6 +16,7 @@ Anything else is refused (TieBroken).
 import ast
 
 from .pyexpr import TieBroken, find_class, find_func, strip_doc, sha
+from .normalize import parse_file, parse as norm_parse
 
 SRC = 'bobocep/cep/engine/decider/run.py'
 OUT = 'RunWalk.lean'
@@ -94,8 +95,7 @@ def _process_shape(fn):
 
 
 def translate(repo):
-    src = (repo / SRC).read_text()
-    tree = ast.parse(src)
+    src, tree = parse_file(repo, SRC)
     cls = find_class(tree, 'BoboRun')
     hashes = {}
     fns = {n: find_func(cls, n) for n in ('process', '_process_loop', '_process_not_loop', '_move_forward')}
